@@ -773,7 +773,7 @@ pub fn all() -> Vec<Box<dyn Check>> {
             "a transport whose write returns Ok(0) violates embedded-io and is not judged",
             "user inputs are valid (topics without wildcards, legal reason codes, legal properties)",
         ],
-        workloads: vec![("cancel-matrix", 120, 12_000, c01_cancel_heavy as ProfileFn), ("general", 3000, 300_000, general), ("cancel-heavy", 3000, 300_000, c01_cancel_heavy)],
+        workloads: vec![("cancel-matrix", 120, 30_000, c01_cancel_heavy as ProfileFn), ("general", 3000, 600_000, general), ("cancel-heavy", 3000, 900_000, c01_cancel_heavy)],
         monitor: m::c01::check,
         max_steps: 50,
         epilogue_polls: 0,
@@ -819,7 +819,7 @@ pub fn all() -> Vec<Box<dyn Check>> {
     gen_check!("C04", "exploration",
         "the reference broker originates bursts of PUBLISH packets (all QoS, identifiers incl. 1/255/256/65535, random property sets, payloads up to the receive buffer, retain/DUP), retransmissions of unreleased QoS 2 identifiers, PUBRELs for known and unknown ids, interleaved with client traffic, small transmit arenas kept full by withheld acks, reconnects between PUBLISH and PUBREL; a 40-line reference receiver predicts deliveries and the exact acknowledgement sequence. Non-trivial iff a duplicate was suppressed, an ack was owed with a full arena, or >=3 QoS 2 ids were pending. The hostile workload (broker exceeding limits/reusing ids) is judged only for: no panic, acks carry ids that were received.",
         COMMON_ASSUME.to_vec(),
-        vec![("inbound-heavy", 5000, 500_000, inbound_heavy as ProfileFn), ("inbound-hostile", 1000, 100_000, inbound_hostile), ("general", 1000, 100_000, general)],
+        vec![("inbound-heavy", 5000, 2_000_000, inbound_heavy as ProfileFn), ("inbound-hostile", 1000, 400_000, inbound_hostile), ("general", 1000, 400_000, general)],
         m::c04::check, 80, 0, (200, 2000), vec!["duplicates_suppressed", "acks_owed_with_full_arena", "pubrel_unknown", "deliveries_with_properties"]),
     Box::new(SweepCheck {
         id: "C05",
@@ -840,14 +840,14 @@ pub fn all() -> Vec<Box<dyn Check>> {
     gen_check!("C06", "exploration",
         "programs with Receive Maximum in {1,2,3,7,8,9,16,65535,absent}, mixed QoS 1/2, held/reordered acks, cancellations and resumed reconnects; conservation monitor in the broker's view (PUBLISH completed on the wire minus acks the broker has sent, plus exchanges entering the connection in the release phase). Non-trivial iff a publish was refused NotReady or a resumed connection began with publishes in flight.",
         COMMON_ASSUME.to_vec(),
-        vec![("window-heavy", 4000, 400_000, window_heavy as ProfileFn), ("general", 2000, 200_000, general)],
+        vec![("window-heavy", 4000, 2_000_000, window_heavy as ProfileFn), ("general", 2000, 1_000_000, general)],
         m::c06::check, 80, 0, (200, 2000), vec!["not_ready_refusals", "resumes_with_inflight", "window_filled"]),
     Box::new(MixCheck {
         id: "C07",
         level: "exploration",
         rule: "every accepted PUBLISH(QoS>0)/SUBSCRIBE/UNSUBSCRIBE must get an identifier that is non-zero and not used by any request still awaiting its final acknowledgement (reference in-use set rebuilt from consumed acks). Workloads: scripted wrap histories (1-3 long-lived requests whose acknowledgement is withheld, the 16-bit counter brought to 65532..65535 either through the verif setter or by really burning up to 65535 identifiers through refused publishes, then 6-12 further allocations across the wrap with identifiers burnt in between) and random histories. Non-trivial iff an allocation happened next to the wrap point (counter < 8 or > 65000) while at least one identifier was in use.",
         assumptions: COMMON_ASSUME.to_vec(),
-        workloads: vec![("wrap", 1500, 150_000, Source::Script(wrap_script)), ("replay-heavy", 2000, 200_000, Source::Gen(replay_heavy)), ("general", 2000, 200_000, Source::Gen(general))],
+        workloads: vec![("wrap", 1500, 600_000, Source::Script(wrap_script)), ("replay-heavy", 2000, 600_000, Source::Gen(replay_heavy)), ("general", 2000, 600_000, Source::Gen(general))],
         monitor: m::c07::check,
         max_steps: 70,
         epilogue_polls: 0,
@@ -860,7 +860,7 @@ pub fn all() -> Vec<Box<dyn Check>> {
         level: "exploration",
         rule: "the request kept by the harness is compared structurally with the independent decoding of the bytes that operation put on the wire (CONNECT incl. will/auth/keep-alive/expiry/limits, PUBLISH, SUBSCRIBE, UNSUBSCRIBE, DISCONNECT); refused requests must leave nothing on the wire or in the arena. Workloads: scripted boundary cases (13 will x auth x QoS x retain configurations, keep-alive/expiry extremes, remaining lengths 126..129, 16382..16385, 2097150..2097153, property strings of 0/1/127/128/65535 bytes, all 36 subscription-option combinations, transmit arenas from 0 to just enough, 65536-byte fields, lying/failing payload closures) plus random programs. Non-trivial iff a packet with properties / will / auth / at a remaining-length boundary was compared or a request was refused.",
         assumptions: COMMON_ASSUME.to_vec(),
-        workloads: vec![("boundaries", 3000, 120_000, Source::Script(crate::scripts::c09_script)), ("general", 2000, 200_000, Source::Gen(general))],
+        workloads: vec![("boundaries", 3000, 1_200_000, Source::Script(crate::scripts::c09_script)), ("general", 2000, 1_000_000, Source::Gen(general))],
         monitor: m::c09::check,
         max_steps: 60,
         epilogue_polls: 0,
@@ -878,7 +878,7 @@ pub fn all() -> Vec<Box<dyn Check>> {
             v.push("virtual time advances only while the application waits; transport calls take no time");
             v
         },
-        workloads: vec![("keepalive", 4000, 400_000, Source::Script(crate::scripts::c10_script))],
+        workloads: vec![("keepalive", 4000, 8_000_000, Source::Script(crate::scripts::c10_script))],
         monitor: m::c10::check,
         max_steps: 60,
         epilogue_polls: 0,
@@ -945,7 +945,7 @@ pub fn all() -> Vec<Box<dyn Check>> {
         level: "exploration",
         rule: concat!("programs against brokers announcing Maximum Packet Size in {2..64,127,128,129,absent} with requests sized so that the encoded packet lands within +-3 bytes of the limit (publish at every QoS, subscribe, unsubscribe, disconnect), owed acknowledgements in 4- and 5-byte forms, retained packets replayed under a smaller limit, receive buffers 24..256 bytes with inbound packets of rx-2..rx+2 bytes. Non-trivial iff a packet within +-3 bytes of the limit was sent, a request was refused as too large, a mandatory packet did not fit or an oversize inbound packet arrived.", " Scripted workload `mandatory-acks`: Maximum Packet Size 2..8 on a fresh or resumed connection x the packet the client owes {PUBACK, PUBREC for a first delivery, PUBREC for a redelivery of an exchange left open by the previous connection, PUBCOMP, PUBREL of an outbound exchange}: whenever the owed packet does not fit, the call reports it and the handle is dead afterwards."),
         assumptions: COMMON_ASSUME.to_vec(),
-        workloads: vec![("mps-edges", 5000, 500_000, Source::Gen(mps_edges)), ("general", 1000, 100_000, Source::Gen(general)), ("mandatory-acks", 600, 20_000, Source::Script(crate::scripts::c14_script))],
+        workloads: vec![("mps-edges", 5000, 3_000_000, Source::Gen(mps_edges)), ("general", 1000, 500_000, Source::Gen(general)), ("mandatory-acks", 600, 200_000, Source::Script(crate::scripts::c14_script))],
         monitor: m::c14::check,
         max_steps: 70,
         epilogue_polls: 0,
@@ -956,7 +956,7 @@ pub fn all() -> Vec<Box<dyn Check>> {
     gen_check!("C18", "exploration",
         "status of every operation handle is queried after every step and compared with a reference model (pending until the final ack was consumed in the issuing session, invalidated once a fresh-session CONNACK was consumed); failure codes must surface as Rejected from the consuming call. Non-trivial iff a status transition was observed.",
         COMMON_ASSUME.to_vec(),
-        vec![("acks-heavy", 4000, 400_000, acks_heavy as ProfileFn), ("general", 2000, 200_000, general)],
+        vec![("acks-heavy", 4000, 2_000_000, acks_heavy as ProfileFn), ("general", 2000, 1_000_000, general)],
         m::c18::check, 70, 0, (200, 2000), vec!["probes_compared", "rejections_surfaced"]),
     ]
 }
